@@ -506,8 +506,93 @@ def _swallow(fn):
         pass
 
 
+def run_first(req):
+    """The FIRST extraction of the process (the Trio glue is still pending: stackscope was imported before trio) is made
+    from a given place: inside a task, from an Instrument hook on the Trio thread between task steps (a runner but no
+    current task), from a worker thread, or outside the run.  Whatever the place, the glue must install cleanly (no
+    warning) and that extraction - and the next one - must show the nursery and its children."""
+    from stackscope import _glue
+    mode = req["mode"]
+    if "trio" not in _glue.builtin_glue_pending:
+        return {"harness_error": "not a fresh process: the Trio glue is no longer pending"}
+    box = {"obs": [], "n": 0}
+
+    def look(tag):
+        with warnings.catch_warnings(record=True) as w:
+            warnings.simplefilter("always")
+            try:
+                st = extract(box["task"], recurse_child_tasks=True)
+            except BaseException as ex:
+                box["obs"].append({"kind": "first_extraction_raised", "where": tag, "exc": repr(ex)})
+                return
+        box["n"] += 1
+        for x in w:
+            box["obs"].append({"kind": "first_extraction_warning", "where": tag, "msg": str(x.message)[:200]})
+        if st.error is not None:
+            box["obs"].append({"kind": "first_extraction_error", "where": tag, "exc": repr(st.error)})
+        nz = []
+        nursery_contexts(st, nz)
+        kids = [len([c for c in n.children if isinstance(c, Stack) and c.frames]) for n in nz]
+        if not kids or kids[0] != 2:     # (the task-mode and 'later' looks are made from a child of a second nursery)
+            box["obs"].append({"kind": "first_extraction_tree", "where": tag, "nurseries_with_children": kids,
+                               "frames": [f.funcname for f in st.frames][:8]})
+
+    class Inst(trio.abc.Instrument):
+        def __init__(self, which):
+            self.which, self.done = which, False
+
+        def _fire(self):
+            if not self.done and "task" in box and box.get("armed"):
+                self.done = True
+                look("instrument:" + self.which)
+
+        def before_io_wait(self, timeout):
+            if self.which == "before_io_wait":
+                self._fire()
+
+        def after_task_step(self, task):
+            if self.which == "after_task_step":
+                self._fire()
+
+    async def sleeper():
+        await trio.sleep_forever()
+
+    async def main():
+        box["task"] = trio.lowlevel.current_task()
+        async with trio.open_nursery() as n:
+            n.start_soon(sleeper)
+            n.start_soon(sleeper)
+            await trio.testing.wait_all_tasks_blocked(0.01)
+            box["armed"] = True
+            if mode == "task":
+                async def looker():
+                    look("task")
+                async with trio.open_nursery() as n2:
+                    n2.start_soon(looker)
+            elif mode == "thread":
+                await trio.to_thread.run_sync(look, "thread")
+            else:
+                await trio.sleep(0.05)
+            box["armed"] = False
+            if mode != "task":
+                # a later extraction, made from an ordinary place, must be right as well
+                async def looker2():
+                    look("later")
+                async with trio.open_nursery() as n2:
+                    n2.start_soon(looker2)
+            n.cancel_scope.cancel()
+
+    insts = [Inst(mode)] if mode in ("before_io_wait", "after_task_step") else []
+    trio.run(main, instruments=insts)
+    if box["n"] == 0:
+        return {"harness_error": "no extraction was made in mode %r" % mode}
+    return {"obs": box["obs"][:6], "stats": {"observations": box["n"]}}
+
+
 def handle(req):
     op = req["op"]
+    if op == "triotree.first":
+        return run_first(req)
     if op == "triotree.foreign":
         return run_foreign_thread(req)
     if op == "triotree.tree":
